@@ -190,6 +190,20 @@ Theorem C13_holds : forall c, valid c -> holds c (run_model c) = [].
 Proof. exact holds_model. Qed.
 Print Assumptions C13_holds.
 
+(* the driver's `covered` flag (5th item of the entry's answer) implies the hypotheses of C13_holds; all of them are
+   decidable from the case: well-formed trees for merge cases, agreement of the model's two groupings for
+   associativity triples (checked, not proved), nothing for chains, histories and constructions *)
+Theorem C13_validb_valid : forall c, validb c = true -> valid c.
+Proof.
+  intros [ml ms a b | ml ms ht srcs sys pd pv fk fv | ml ms a b c' | ml ms ht steps | ml ms ht fails fexc tries steps];
+    cbn [validb valid]; intros H; try exact Logic.I; try exact H.
+  all: now apply andb_true_iff in H.
+Qed.
+Print Assumptions C13_validb_valid.
+Theorem C13_covered_cases : forall c, validb c = true -> holds c (run_model c) = [].
+Proof. intros c H. apply C13_holds. now apply C13_validb_valid. Qed.
+Print Assumptions C13_covered_cases.
+
 (* ---- non-vacuity ---- *)
 Definition sa : val := VStr [97%N].
 Definition sb : val := VStr [98%N].
